@@ -114,8 +114,19 @@ def faHandle (op : String) (j : Json) : R Json := do
     let o₀ ← match (j.getObjVal? "init").toOption with
       | none => pure (FAObj.new det)
       | some i => do
-        pure (FAObj.mk det (← asNatList (← field i "states")) (← asNatList (← field i "syms"))
-          (← asNatList (← field i "starts")) (← asNatList (← field i "finals")))
+        let T ← match (i.getObjVal? "trans").toOption with
+          | none => pure ([] : FAObj.Table)
+          | some t => (← asArr t).mapM fun e => do
+            match ← asArr e with
+            | [q, row] => do
+              let r ← (← asArr row).mapM fun f => do
+                match ← asArr f with
+                | [a, ts] => pure ((← asOptNat a), (← asNatList ts))
+                | _ => throw "bad table row"
+              pure ((← asNat q), r)
+            | _ => throw "bad table"
+        pure (FAObj.mkT det (← asNatList (← field i "states")) (← asNatList (← field i "syms"))
+          (← asNatList (← field i "starts")) (← asNatList (← field i "finals")) T)
     pure (Json.mkObj [("init", jFAObj o₀), ("steps", Json.arr (faObjRun o₀ ops).toArray)])
   | "fa.member" =>   -- oracle: spec-level membership (acceptsE is proved equal to Lang)
     let A ← asENFA (← field j "A")
